@@ -70,6 +70,9 @@ def gen_ini(g, sc, rng, p_noise=0.3, p_fault=0.1, p_unknown=0.06, p_quote=0.2, c
             else:
                 valid = rng.random() > 0.08
                 v = rng.choice(o["choices"]) if (o["choices"] and valid) else g.value_text(o["type"], o["base"], valid)
+                if o["type"] in (("k", "string"), ("slice", ("k", "string"))) and rng.random() < 0.015:
+                    # an entry line longer than bufio's 4096-byte buffer
+                    v = v[:8] + b"0123456789abcdef" * rng.choice([256, 300, 600]) + v[:3]
                 if rng.random() < p_quote:
                     if o["type"][0] == "map" and b":" in v:
                         k, _, vv = v.partition(b":")
